@@ -53,8 +53,11 @@ META = {
         "with from_sphinx), that iteration is over the mappings' own order, that every loop visits every entry of its level "
         "(the iterable is never narrowed by using a filter pattern as a literal key unless that alternative is chosen only "
         "under `'*' not in <filter>`), that no break/return cuts the enumeration short and that entries are skipped only "
-        "after a failed wildcard test. R4: callers hand the filters on under the same "
-        "roles (href parts inv:domain:type#target, keyword pass-through, CLI options); the inv: link path emits IREF_MISSING "
+        "after a failed wildcard test; the joined `domain:type` key is never matched as one string. R4: callers hand the filters on under the same "
+        "roles (href parts inv:domain:type#target, keyword pass-through, CLI options); an abstract execution of "
+        "render_link_inventory per number of path parts (1, 2, 3; IndexError under suppress/except, tuple assignments evaluated "
+        "as a whole, length guards, None padding) shows every given part bound to its filter at the lookup; the inventory stored "
+        "for a configuration key is fetched with that entry's base URL and is not memoised under a key lacking it; the inv: link path emits IREF_MISSING "
         "exactly once and no reference for 0 matches, nothing for 1, IREF_AMBIGUOUS exactly once for >1 (evaluated over the "
         "abstract match count on the CFG; star-unpacking `first, *rest = matches` and tests on the rest are understood; an "
         "emission extracted into a helper that emits exactly once is followed one level), uses the first match and builds refuri as join(base_url, loc) if base_url else loc."
@@ -774,8 +777,9 @@ class Kinds:
             else:
                 self._assign(n)
         for n in fi.local_nodes():
-            if isinstance(n, ast.comprehension):
-                raise Unsupported(f"comprehension in {fi.qualname}: roles of its variables are not inferred")
+            # a comprehension over inventory data would need role inference of its own; one over e.g. the filters does not
+            if isinstance(n, ast.comprehension) and any(isinstance(x, ast.Name) and x.id in self.kinds for x in ast.walk(n.iter)):
+                raise Unsupported(f"comprehension over inventory data in {fi.qualname}: roles of its variables are not inferred")
 
     def kind_of(self, e: ast.expr) -> str | None:
         if isinstance(e, ast.Name):
@@ -944,6 +948,17 @@ def r3_pairing(corpus: Corpus, rep: Report, tier: str):
             if len(c.args) != 2 or c.keywords:
                 raise Unsupported(f"call `{short(c, 50)}`")
             kind = kd.kind_of(c.args[0])
+            if kind == "DOMOTYPE":
+                # the four coordinates are matched separately; a pattern applied to the joined key can run across the separator
+                tested[id(c)] = (kind, False)
+                rep.violation(
+                    "C19.R3",
+                    f"{fi.fq}|the unsplit domain:type key is matched as one string",
+                    fi.module.site(c),
+                    f"`{short(c, 70)}` matches the whole `domain:type` key with one pattern instead of matching domain and object type separately: "
+                    "a `*` of either pattern can run across the `:` (key `std:opt:doc`, i.e. type `opt:doc`, is returned for otypes='doc'), and the result differs from the native representation",
+                )
+                continue
             if kind not in FILTER_ROLE.values():
                 raise Unsupported(f"{fi.qualname}: `{short(c, 50)}` tests a value whose role is {kind or 'unknown'}")
             fparam = c.args[1].id if isinstance(c.args[1], ast.Name) and c.args[1].id in fi.params and not _defs_of(fi, c.args[1].id) else None
@@ -1338,6 +1353,335 @@ def _counts_under(cfg, lens: dict[str, int], unpacks: list, n: int, weight) -> s
     return out.get(EXIT, set())
 
 
+# ---- href parts: abstract execution per number of ':'-separated path parts
+
+
+class _IndexErr(Exception):
+    pass
+
+
+class _OtherErr(Exception):
+    pass
+
+
+class _Stop(Exception):  # return before the lookup
+    pass
+
+
+class _Reached(Exception):
+    def __init__(self, state):
+        self.state = state
+
+
+_CATCHES_INDEX = {"IndexError", "LookupError", "Exception", "BaseException"}
+
+
+class HrefParts:
+    """Which value each of the (invs, domains, otypes) variables holds at the lookup when the path has p parts."""
+
+    def __init__(self, fi: FunctionInfo, call: ast.Call):
+        self.fi = fi
+        self.call = call
+        self.role: dict[str, int] = {}
+        for kw in call.keywords:
+            if kw.arg in ("invs", "domains", "otypes"):
+                if not (isinstance(kw.value, ast.Name) and kw.value.id not in fi.params):
+                    raise Unsupported(f"{fi.qualname}: {kw.arg}=`{short(kw.value, 40)}` is not a local variable")
+                self.role[kw.value.id] = ("invs", "domains", "otypes").index(kw.arg)
+        if len(self.role) != 3:
+            raise Unsupported(f"{fi.qualname}: the three path filters are not handed on as three distinct locals")
+        cands = []
+        for n in fi.local_nodes():
+            if isinstance(n, ast.Name) and isinstance(n.ctx, ast.Store) and n.id not in cands:
+                try:
+                    d = _defs_of(fi, n.id)
+                except Unsupported:
+                    continue
+                while len(d) == 1 and isinstance(d[0], ast.Call) and isinstance(d[0].func, ast.Name) and d[0].func.id in ("list", "tuple") and len(d[0].args) == 1:
+                    d = [d[0].args[0]]
+                if len(d) == 1 and isinstance(d[0], ast.Call) and isinstance(d[0].func, ast.Attribute) and d[0].func.attr == "split" and len(d[0].args) == 1 and isinstance(d[0].args[0], ast.Constant) and d[0].args[0].value == ":":
+                    src = d[0].func.value
+                    if isinstance(src, ast.Attribute) and src.attr == "path" and _urlparse_var(src.value, fi):
+                        cands.append(n.id)
+                        self.path_text = unparse(src)
+        if len(cands) != 1:
+            raise Unsupported(f"{fi.qualname}: the list of href path parts was not identified ({cands})")
+        self.P = cands[0]
+
+    # -- expression evaluation under "the path has p parts"
+    def _check_subscripts(self, e: ast.AST, p: int) -> None:
+        for x in ast.walk(e):
+            if isinstance(x, ast.Subscript) and isinstance(x.value, ast.Name) and x.value.id == self.P and isinstance(x.slice, ast.Constant) and type(x.slice.value) is int:
+                i = x.slice.value
+                if i >= p or i < -p:
+                    raise _IndexErr()
+
+    def _int(self, e: ast.expr, p: int):
+        if isinstance(e, ast.Constant) and type(e.value) is int:
+            return e.value
+        if isinstance(e, ast.Call) and isinstance(e.func, ast.Name) and e.func.id == "len" and len(e.args) == 1 and isinstance(e.args[0], ast.Name) and e.args[0].id == self.P:
+            return p
+        if isinstance(e, ast.BinOp) and isinstance(e.op, (ast.Add, ast.Sub)):
+            a, b = self._int(e.left, p), self._int(e.right, p)
+            if a is None or b is None:
+                return None
+            return a + b if isinstance(e.op, ast.Add) else a - b
+        if isinstance(e, ast.Call) and isinstance(e.func, ast.Name) and e.func.id in ("max", "min") and len(e.args) == 2:
+            a, b = self._int(e.args[0], p), self._int(e.args[1], p)
+            return None if a is None or b is None else (max if e.func.id == "max" else min)(a, b)
+        return None
+
+    def _tok(self, e: ast.expr, state: dict, p: int):
+        if isinstance(e, ast.Constant) and e.value is None:
+            return "NONE"
+        if isinstance(e, ast.Subscript) and isinstance(e.value, ast.Name) and e.value.id == self.P and isinstance(e.slice, ast.Constant) and type(e.slice.value) is int:
+            i = e.slice.value
+            return ("PART", i if i >= 0 else p + i)
+        if isinstance(e, ast.Name) and e.id in state:
+            return state[e.id]
+        if isinstance(e, ast.IfExp):
+            v = self._test(e.test, p)
+            if v is not None:
+                return self._tok(e.body if v else e.orelse, state, p)
+        if isinstance(e, ast.BoolOp) and isinstance(e.op, ast.Or) and len(e.values) == 2 and isinstance(e.values[1], ast.Constant) and e.values[1].value is None:
+            t = self._tok(e.values[0], state, p)
+            return t if t == "NONE" else "OTHER"  # `part or None` also maps '' to None: not the documented mapping
+        return "OTHER"
+
+    def _seq(self, e: ast.expr, state: dict, p: int):
+        if isinstance(e, ast.Name) and e.id == self.P:
+            return [("PART", i) for i in range(p)]
+        if isinstance(e, (ast.Tuple, ast.List)) and not any(isinstance(x, ast.Starred) for x in e.elts):
+            return [self._tok(x, state, p) for x in e.elts]
+        if isinstance(e, ast.BinOp) and isinstance(e.op, ast.Add):
+            a, b = self._seq(e.left, state, p), self._seq(e.right, state, p)
+            return None if a is None or b is None else a + b
+        if isinstance(e, ast.BinOp) and isinstance(e.op, ast.Mult):
+            for sq, k in ((e.left, e.right), (e.right, e.left)):
+                a, n = self._seq(sq, state, p), self._int(k, p)
+                if a is not None and n is not None:
+                    return a * max(0, n)
+            return None
+        if isinstance(e, ast.Subscript) and isinstance(e.slice, ast.Slice) and e.slice.step is None:
+            a = self._seq(e.value, state, p)
+            lo = 0 if e.slice.lower is None else self._int(e.slice.lower, p)
+            hi = len(a) if (a is not None and e.slice.upper is None) else (self._int(e.slice.upper, p) if e.slice.upper is not None else None)
+            if a is None or lo is None or hi is None:
+                return None
+            return a[lo:hi]
+        if isinstance(e, ast.Call) and isinstance(e.func, ast.Name) and e.func.id in ("list", "tuple") and len(e.args) == 1 and not e.keywords:
+            return self._seq(e.args[0], state, p)
+        return None
+
+    def _test(self, t: ast.expr, p: int):
+        if unparse(t) == self.path_text:
+            return True  # the case analysed is "a path with p >= 1 parts was given"
+        if isinstance(t, ast.UnaryOp) and isinstance(t.op, ast.Not) and unparse(t.operand) == self.path_text:
+            return False
+        try:
+            return _ev_len(t, {self.P: 0}, p)
+        except Unsupported:
+            return None
+
+    # -- statements
+    def _touches(self, st: ast.AST) -> bool:
+        names = set(self.role) | {self.P}
+        return any(isinstance(x, ast.Name) and x.id in names for x in ast.walk(st)) or any(x is self.call for x in ast.walk(st))
+
+    def _run(self, stmts, state: dict, p: int) -> None:
+        for st in stmts:
+            if isinstance(st, (ast.Assign, ast.AnnAssign)):
+                value = st.value
+                targets = st.targets if isinstance(st, ast.Assign) else [st.target]
+                if value is None:
+                    continue
+                if any(x is self.call for x in ast.walk(value)):
+                    raise _Reached(dict(state))
+                self._check_subscripts(value, p)
+                for t in targets:
+                    if isinstance(t, ast.Name):
+                        if t.id in self.role:
+                            state[t.id] = self._tok(value, state, p)
+                    elif isinstance(t, (ast.Tuple, ast.List)):
+                        rv = [e for e in t.elts if isinstance(e, ast.Name) and e.id in self.role]
+                        if not rv:
+                            continue
+                        if any(isinstance(e, ast.Starred) for e in t.elts):
+                            raise Unsupported(f"{self.fi.qualname}: star-unpacking into the filter variables")
+                        seq = self._seq(value, state, p)
+                        if seq is None:
+                            raise Unsupported(f"{self.fi.qualname}: `{short(st, 60)}` - right-hand side not understood")
+                        if len(seq) != len(t.elts):
+                            raise _OtherErr()  # ValueError: wrong number of values to unpack
+                        for e, v in zip(t.elts, seq):
+                            if isinstance(e, ast.Name) and e.id in self.role:
+                                state[e.id] = v
+                continue
+            if any(x is self.call for x in ast.walk(st)) and not isinstance(st, (ast.If, ast.With, ast.Try, ast.For, ast.While)):
+                raise _Reached(dict(state))
+            if isinstance(st, ast.Return):
+                raise _Stop()
+            if isinstance(st, ast.With):
+                sup = False
+                for it in st.items:
+                    c = it.context_expr
+                    if isinstance(c, ast.Call) and (dotted(c.func) or "").rsplit(".", 1)[-1] == "suppress" and any((dotted(a) or "") in _CATCHES_INDEX for a in c.args):
+                        sup = True
+                if sup:
+                    try:
+                        self._run(st.body, state, p)
+                    except _IndexErr:
+                        pass
+                else:
+                    self._run(st.body, state, p)
+                continue
+            if isinstance(st, ast.Try):
+                if not self._touches(st):
+                    continue
+                if st.finalbody:
+                    raise Unsupported(f"{self.fi.qualname}: try/finally around the href parts")
+                try:
+                    self._run(st.body, state, p)
+                except _IndexErr:
+                    hs = [h for h in st.handlers if h.type is None or any((dotted(x) or "") in _CATCHES_INDEX for x in ([h.type] if not isinstance(h.type, ast.Tuple) else h.type.elts))]
+                    if not hs:
+                        raise
+                    self._run(hs[0].body, state, p)
+                else:
+                    self._run(st.orelse, state, p)
+                continue
+            if isinstance(st, ast.If):
+                self._check_subscripts(st.test, p)
+                v = self._test(st.test, p)
+                if v is None:
+                    if not self._touches(st):
+                        continue
+                    raise Unsupported(f"{self.fi.qualname}: the href parts are assigned under `{short(st.test, 50)}`, which the number of parts does not decide")
+                self._run(st.body if v else st.orelse, state, p)
+                continue
+            if isinstance(st, (ast.For, ast.While)):
+                if self._touches(st):
+                    raise Unsupported(f"{self.fi.qualname}: loop around the href parts")
+                continue
+            if isinstance(st, ast.Expr):
+                self._check_subscripts(st, p)
+                continue
+            if self._touches(st) and not isinstance(st, (ast.Expr, ast.Pass)):
+                if any(isinstance(x, ast.Name) and x.id in self.role and isinstance(x.ctx, ast.Store) for x in ast.walk(st)):
+                    raise Unsupported(f"{self.fi.qualname}: `{short(st, 50)}` assigns a filter variable in an unknown way")
+
+    def at_lookup(self, p: int):
+        """('ok', state) | ('raises', None) | ('returns', None)"""
+        state: dict = {}
+        try:
+            self._run(self.fi.node.body, state, p)
+        except _Reached as r:
+            return "ok", r.state
+        except (_IndexErr, _OtherErr):
+            return "raises", None
+        except _Stop:
+            return "returns", None
+        raise Unsupported(f"{self.fi.qualname}: the inventory lookup was not reached by the abstract execution")
+
+
+def _href_parts_check(corpus: Corpus, rep: Report) -> None:
+    fi = corpus.func("mdit_to_docutils.base:DocutilsRenderer.render_link_inventory")
+    calls = _calls_to(fi, {"get_inventory_matches"})
+    if len(calls) != 1:
+        raise Unsupported(f"{fi.qualname}: {len(calls)} calls of get_inventory_matches")
+    hp = HrefParts(fi, calls[0])
+    names = {i: n for n, i in hp.role.items()}
+    label = ("inventory", "domain", "object type")
+    for p in (1, 2, 3):
+        k = f"{fi.fq}|inv: path with {p} part(s): every given part reaches its filter"
+        status, state = hp.at_lookup(p)
+        if status != "ok":
+            rep.violation("C19.R4", k, fi.module.site(calls[0]), f"with {p} ':'-separated path part(s) the function {status} before the inventory lookup")
+            continue
+        problems = []
+        for i in range(3):
+            got = state.get(names[i], "UNBOUND")
+            want = ("PART", i) if i < p else "NONE"
+            if got == want:
+                continue
+            if got in ("OTHER", "UNBOUND") or (isinstance(got, tuple) and got[0] != "PART"):
+                raise Unsupported(f"{fi.qualname}: value of `{names[i]}` for a path with {p} part(s) not understood ({got})")
+            if got == "NONE":
+                problems.append(f"the {label[i]} part (part {i + 1}) is given but `{names[i]}` is still None at the lookup: the filter is silently dropped")
+            elif want == "NONE":
+                problems.append(f"`{names[i]}` holds part {got[1] + 1} although no {label[i]} part was given")
+            else:
+                problems.append(f"`{names[i]}` holds part {got[1] + 1} instead of part {i + 1}")
+        if problems:
+            rep.violation("C19.R4", k, fi.module.site(calls[0]), f"href `inv:{':'.join('abc'[:p])}#t`: " + "; ".join(problems) + " (an IndexError raised while evaluating a later part discards the bindings evaluated in the same statement / skips the following ones)")
+        else:
+            rep.ok("C19.R4", k, fi.module.site(calls[0]))
+
+
+# ---- base URL of a registered inventory
+
+
+def _base_url_check(corpus: Corpus, rep: Report) -> None:
+    fi = corpus.func("mdit_to_docutils.base:DocutilsRenderer.get_inventory_matches")
+    loops = [n for n in fi.local_nodes() if isinstance(n, ast.For) and isinstance(n.iter, ast.Call) and isinstance(n.iter.func, ast.Attribute) and n.iter.func.attr == "items" and (dotted(n.iter.func.value) or "").endswith("md_config.inventories")]
+    if len(loops) != 1:
+        raise Unsupported(f"{fi.qualname}: loop over md_config.inventories.items() not found")
+    t = loops[0].target
+    # config layout: key -> (base uri, optional path)
+    if not (isinstance(t, ast.Tuple) and len(t.elts) == 2 and isinstance(t.elts[0], ast.Name) and isinstance(t.elts[1], ast.Tuple) and len(t.elts[1].elts) == 2 and all(isinstance(e, ast.Name) for e in t.elts[1].elts)):
+        raise Unsupported(f"{fi.qualname}: loop target `{short(t, 40)}` is not `key, (uri, path)`")
+    key, uri = t.elts[0].id, t.elts[1].elts[0].id
+    stores = [n for n in fi.local_nodes() if isinstance(n, ast.Assign) and len(n.targets) == 1 and isinstance(n.targets[0], ast.Subscript) and (dotted(n.targets[0].value) or "") == "self._inventories" and loops[0] in ancestors(n)]
+    if len(stores) != 1:
+        raise Unsupported(f"{fi.qualname}: {len(stores)} stores into self._inventories inside the loop")
+    st = stores[0]
+    k = f"{fi.fq}|the inventory stored for a configuration key carries that entry's base URL"
+    if not (isinstance(st.targets[0].slice, ast.Name) and st.targets[0].slice.id == key):
+        raise Unsupported(f"{fi.qualname}: `{short(st, 50)}` is not keyed by the configuration key")
+
+    def is_fetch(e):
+        return isinstance(e, ast.Call) and (dotted(e.func) or "").rsplit(".", 1)[-1] == "fetch_inventory"
+
+    def fetch_problem(c: ast.Call) -> str | None:
+        b = kwarg(c, "base_url")
+        if b is None:
+            return f"`{short(c, 60)}` passes no base_url: relative locations are rendered without the inventory's base URL"
+        if isinstance(b, ast.Name) and b.id == uri:
+            return None
+        return f"`{short(c, 60)}` passes base_url=`{short(b, 30)}`, not the entry's base URL `{uri}`"
+
+    v = st.value
+    if isinstance(v, ast.Name):
+        d = _defs_of(fi, v.id)
+        if len(d) != 1:
+            raise Unsupported(f"{fi.qualname}: {v.id} has {len(d)} definitions")
+        v = d[0]
+    problem = None
+    if is_fetch(v):
+        problem = fetch_problem(v)
+    else:
+        memo_key = memo_call = None
+        if isinstance(v, ast.Subscript):  # C[k], filled elsewhere by C[k] = fetch(...)
+            cont = unparse(v.value)
+            fills = [n for n in fi.local_nodes() if isinstance(n, ast.Assign) and len(n.targets) == 1 and isinstance(n.targets[0], ast.Subscript) and unparse(n.targets[0].value) == cont and is_fetch(n.value)]
+            if len(fills) == 1 and unparse(fills[0].targets[0].slice) == unparse(v.slice):
+                memo_key, memo_call = v.slice, fills[0].value
+        elif isinstance(v, ast.Call) and isinstance(v.func, ast.Attribute) and v.func.attr == "setdefault" and len(v.args) == 2 and is_fetch(v.args[1]):
+            memo_key, memo_call = v.args[0], v.args[1]
+        if memo_call is None:
+            raise Unsupported(f"{fi.qualname}: the stored inventory comes from `{short(v, 50)}`, not from fetch_inventory")
+        problem = fetch_problem(memo_call)
+        if problem is None:
+            comps = memo_key.elts if isinstance(memo_key, ast.Tuple) else [memo_key]
+            if not any(isinstance(c, ast.Name) and c.id == uri for c in comps):
+                problem = (f"the loaded inventory is memoised under `{short(memo_key, 40)}`, which does not contain the base URL `{uri}` that was baked into it: "
+                           "a second configuration entry (or a later parse) reading the same location with another base URL gets the first entry's base_url, and refuri is joined to the wrong base")
+    if problem is None:
+        rep.ok("C19.R4", k, fi.module.site(st))
+    else:
+        rep.violation("C19.R4", k, fi.module.site(st), problem)
+
+
 LINK_FUNCS = [
     # (function, emits IREF_MISSING for 0 matches?, representation)
     ("mdit_to_docutils.base:DocutilsRenderer.render_link_inventory", True, "native"),
@@ -1387,6 +1731,10 @@ def r4_link_paths(corpus: Corpus, rep: Report, tier: str):
         missing = kws - {kw.arg for kw in call.keywords}
         for m in sorted(missing):
             rep.violation("C19.R4", f"{fi.fq}|{'/'.join(sorted(callees))}({m}=)", fi.module.site(call), f"the {FILTER_ROLE[m]} filter is not handed on: it is silently ignored")
+    # (a') each given href part reaches its filter (flow-sensitive, per number of path parts)
+    _href_parts_check(corpus, rep)
+    # (a'') the inventory registered under a configuration key carries that entry's base URL
+    _base_url_check(corpus, rep)
     # (b) match-count paths
     g = get_callgraph(corpus)
     for fq, has_missing, rk in LINK_FUNCS:
@@ -1519,7 +1867,7 @@ def r4_link_paths(corpus: Corpus, rep: Report, tier: str):
             rep.ok("C19.R4", k, fi.module.site(uris[0]), unparse(uris[0])[:100])
         else:
             rep.violation("C19.R4", k, fi.module.site(uris[0]), verdict)
-    rep.expect_min("C19.R4", 22, "13 pass-through keywords + 2 x (order, 3 count classes, first match, refuri)")
+    rep.expect_min("C19.R4", 26, "13 pass-through keywords + 2 x (order, 3 count classes, first match, refuri)")
 
 
 def _refuri_verdict(e: ast.expr, mv: str, rk: str) -> str | None:
@@ -1644,7 +1992,7 @@ def mutants(corpus: Corpus):
     # class "the pattern used as a literal key / enumeration cut short" (entries bypass the wildcard test)
     if lp is not None and isinstance(lp.iter, ast.Call) and isinstance(lp.iter.func, ast.Attribute):
         mp = unparse(lp.iter.func.value)
-        add("c19-native-exact-hit-shortcut", "C19.R3", inv, lp.iter.func.value, f"({{targets: {mp}[targets]}} if targets in {mp} else {mp})", "OTMAP visits every entry", canary=True)
+        add("c19-native-exact-hit-shortcut", "C19.R3", inv, lp.iter.func.value, f"({{targets: {mp}[targets]}} if targets in {mp} else {mp})", "OTMAP visits every entry")
     ld = find_node(fn, lambda n: isinstance(n, ast.For) and "'objects'" in unparse(n.iter))
     if ld is not None and isinstance(ld.iter, ast.Call) and isinstance(ld.iter.func, ast.Attribute):
         mp = unparse(ld.iter.func.value)
@@ -1656,8 +2004,35 @@ def mutants(corpus: Corpus):
     if ys is not None:
         ind = " " * ys.col_offset
         add("c19-native-stop-after-first-hit", "C19.R3", inv, ys, ast.get_source_segment(inv.src, ys) + f"\n{ind}break", "enumeration is not cut short")
+    # class "the joined domain:type key matched with one pattern"
+    tst = find_node(fs, lambda n: isinstance(n, ast.If) and "domains" in unparse(n.test) and "otypes" in unparse(n.test))
+    keyvar = find_node(fs, lambda n: isinstance(n, ast.Assign) and isinstance(n.value, ast.Call) and isinstance(n.value.func, ast.Attribute) and n.value.func.attr == "split")
+    if tst is not None and keyvar is not None:
+        kv = unparse(keyvar.value.func.value)
+        add("c19-sphinx-joined-key-pattern", "C19.R3", inv, tst.test, f"not match_with_wildcard({kv}, f\"{{domains or '*'}}:{{otypes or '*'}}\")", "unsplit domain:type key")
+        dc = find_node(fs, lambda n: isinstance(n, ast.Call) and unparse(n.func) == "match_with_wildcard" and unparse(n.args[1]) == "domains")
+        add("c19-sphinx-domain-filter-on-whole-key", "C19.R3", inv, dc.args[0] if dc is not None else None, kv, "unsplit domain:type key")
     # ---- R4
     rl = base.func("DocutilsRenderer.render_link_inventory")
+    # class "an IndexError for a missing later part discards / skips the parts that were given"
+    wp = find_node(rl, lambda n: isinstance(n, ast.With) and "suppress" in unparse(n.items[0].context_expr) and len(n.body) == 3 and all(isinstance(b, ast.Assign) and isinstance(b.value, ast.Subscript) for b in n.body))
+    if wp is not None:
+        ind = " " * wp.body[0].col_offset
+        hdr = f"with {unparse(wp.items[0].context_expr)}:\n{ind}"
+        tg = ", ".join(unparse(b.targets[0]) for b in wp.body)
+        vs = ", ".join(unparse(b.value) for b in wp.body)
+        add("c19-href-parts-merged-into-one-assignment", "C19.R4", base, wp, hdr + f"{tg} = {vs}", "inv: path with 1 part", canary=True)
+        add("c19-href-parts-assigned-last-first", "C19.R4", base, wp, hdr + f"\n{ind}".join(ast.get_source_segment(base.src, b) for b in reversed(wp.body)), "inv: path with 2 part")
+        pv = unparse(wp.body[0].value.value)
+        add("c19-href-parts-behind-length-guard", "C19.R4", base, wp, f"if len({pv}) > 2:\n{ind}" + f"\n{ind}".join(ast.get_source_segment(base.src, b) for b in wp.body), "inv: path with 2 part")
+    else:
+        out.append(("c19-href-parts-merged-into-one-assignment", "the `with suppress(IndexError)` block of three part assignments was not found"))
+    # class "the loaded inventory's base URL is not the configuration entry's"
+    gm = base.func("DocutilsRenderer.get_inventory_matches")
+    fc = find_node(gm, lambda n: isinstance(n, ast.Call) and unparse(n.func).endswith("fetch_inventory"))
+    if fc is not None and kwarg(fc, "base_url") is not None and fc.args:
+        add("c19-base-url-from-load-path", "C19.R4", base, kwarg(fc, "base_url"), unparse(fc.args[0]), "base URL")
+        add("c19-inventory-memo-keyed-by-location-only", "C19.R4", base, fc, f"vars(inventory).setdefault('_loaded', {{}}).setdefault({unparse(fc.args[0])}, {unparse(fc)})", "base URL")
     m0 = find_node(rl, lambda n: isinstance(n, ast.Subscript) and unparse(n) == "matches[0]")
     add("c19-last-match-used", "C19.R4", base, m0, "matches[-1]", "first match", canary=True)
     amb = find_node(rl, lambda n: isinstance(n, ast.If) and unparse(n.test) == "len(matches) > 1")
